@@ -56,10 +56,12 @@ TEXT = {
     "model_checking": "Exhaustive within the stated bounds (definitions of the listed families, outcome menus, "
                       "control-request budgets, deviation bound for big shapes): every explored transition is an "
                       "execution of the real conductor API and is judged by the oracle; nothing is sampled. "
-                      "The claim does not extend beyond the bounds (small-scope hypothesis). The thorough "
-                      "tier additionally has a wall-clock budget (VERIF_BUDGET_S, default 1200 s per worker "
-                      "pool): explorations cut by it are listed in the evidence and the run is then not "
-                      "marked exhaustive.",
+                      "The claim does not extend beyond the bounds (small-scope hypothesis). In the thorough "
+                      "tier every exploration is a breadth-first prefix of at most VERIF_MAX_STATES (default "
+                      "10000) distinct states, which makes its size deterministic; a wall-clock budget "
+                      "(VERIF_BUDGET_S, default 3600 s per worker pool) is a safety net for slow machines. "
+                      "Explorations cut by either are counted in the evidence and the run is then not marked "
+                      "exhaustive.",
     "exploration": "Exhaustive over a finite input grammar (printed in the evidence), each case executed on the "
                    "real code and compared with a reference; nothing about inputs outside the grammar.",
 }
